@@ -7,6 +7,7 @@ package wsrpc
 import (
 	"fmt"
 	"os"
+	"strings"
 	"sync"
 	"testing"
 	"time"
@@ -21,7 +22,7 @@ func TestVerifC14Sockets(t *testing.T) {
 	type job struct{ test, name, spec, out string }
 	var jobs []job
 	for round := 0; round < rounds; round++ {
-		for _, tn := range [][2]string{{"TestVerifC10Child", "peers-closed-first"}, {"TestVerifC09Child", "peer-closed-first"}, {"TestVerifC09Child", "write-fails-with-message-in-hand"}, {"TestVerifC10Child", "write-timed-out-before-stop"}} {
+		for _, tn := range [][2]string{{"TestVerifC10Child", "peers-closed-first"}, {"TestVerifC09Child", "peer-closed-first"}, {"TestVerifC09Child", "write-fails-with-message-in-hand"}, {"TestVerifC10Child", "write-timed-out-before-stop"}, {"TestVerifC10Child", "write-times-out-while-the-peer-keeps-sending"}} {
 			spec := fmt.Sprintf("%s %d", tn[1], r.U64()%1000000007)
 			jobs = append(jobs, job{tn[0], tn[1], spec, fmt.Sprintf("%s/verif_c14s_%d_%d.out", os.TempDir(), os.Getpid(), len(jobs))})
 		}
@@ -31,10 +32,18 @@ func TestVerifC14Sockets(t *testing.T) {
 		wg.Add(1)
 		go func(j job) {
 			defer wg.Done()
-			ok, out := vRunChildEnv(t, j.test, j.spec, 60*time.Second, "VERIF_CHILD_OUT="+j.out)
-			b, _ := os.ReadFile(j.out)
-			os.Remove(j.out)
-			fail := string(b)
+			// a scenario whose preconditions could not be established has not taken place: it is played again, up to three times
+			var ok bool
+			var out, fail string
+			for attempt := 0; attempt < 3; attempt++ {
+				ok, out = vRunChildEnv(t, j.test, j.spec, 60*time.Second, "VERIF_CHILD_OUT="+j.out)
+				b, _ := os.ReadFile(j.out)
+				os.Remove(j.out)
+				fail = string(b)
+				if !ok || (fail != "setup" && !strings.HasPrefix(fail, "gate-script-infeasible")) {
+					break
+				}
+			}
 			if !ok {
 				fail = "process-died-or-timed-out/" + vPanicLine(out)
 			}
